@@ -166,7 +166,7 @@ def coverage(pid, tm):
 
 
 # ---------------------------------------------------------------------------
-@prop('C03', ['Tree', 'DecorAbs', 'DecorType', 'DecorFCard', 'TreeCtc', 'Mix', 'Ctc3', 'Wide', 'Edit1', 'EditWalk'], naming_matters=False,
+@prop('C03', ['Tree', 'DecorAbs', 'DecorType', 'DecorFCard', 'TreeCtc', 'Mix', 'Ctc3', 'Wide', 'Edit1', 'Edit1s', 'EditWalk'], naming_matters=False,
       assumptions=['models are built through Feature/Relation/add_relation/ctcs.append, as in the readers'])
 def script_c03(case, naming, tier, seed):
     build_part, edits = split_edits(case['hist'])
@@ -259,6 +259,10 @@ def prepare_chain(cases, tier, seed):
 
 def with_chain(script):
     def wrapped(case, naming, tier, seed):
+        if 'groups' in case:
+            if naming.k != 0:
+                return [], None
+            return [observe.exec_wide(case['groups'])], {'key': case['groups'], 'nontrivial': True, 'tags': ['wideleaves']}
         if 'chain' in case:
             return [observe.exec_chain(case['chain'])], {'key': case['chain'], 'nontrivial': True}
         return script(case, naming, tier, seed)
@@ -267,13 +271,13 @@ def with_chain(script):
 
 SEM_ASSUME = ['Boolean models; constraints purely propositional over feature names',
               'exact counts are brute force over all 2^n selections, n <= family bound']
-prop('C13', ['Tree', 'TreeStar', 'TreeCtc', 'Big', 'Wide', 'Chain', 'Ctc3', 'DecorAbs', 'Edit1', 'EditWalk'], naming_matters=True,
+prop('C13', ['Tree', 'TreeStar', 'TreeCtc', 'Big', 'Wide', 'Chain', 'Ctc3', 'Req2', 'DecorAbs', 'Edit1', 'Edit1s', 'EditWalk', 'WideLeaves'], naming_matters=True,
      name_classes=('casepair', 'natural'), name_stride={'quick': 8, 'thorough': 3}, assumptions=SEM_ASSUME,
      prepare=prepare_chain)(with_chain(ops_script(['estimate'])))
-prop('C14', ['Tree', 'TreeStar', 'TreeCtc', 'Big', 'Wide', 'Chain', 'Ctc3', 'DecorAbs', 'Edit1', 'EditWalk'], naming_matters=True,
+prop('C14', ['Tree', 'TreeStar', 'TreeCtc', 'Big', 'Wide', 'Chain', 'Ctc3', 'Req2', 'DecorAbs', 'Edit1', 'Edit1s', 'EditWalk'], naming_matters=True,
      name_classes=('casepair', 'natural'), name_stride={'quick': 8, 'thorough': 3}, assumptions=SEM_ASSUME,
      prepare=prepare_chain)(with_chain(ops_script(['core'])))
-prop('C15', ['Tree', 'TreeStar', 'TreeCtc', 'Big', 'Wide', 'Chain', 'Ctc3', 'DecorAbs', 'Edit1', 'EditWalk'], naming_matters=True,
+prop('C15', ['Tree', 'TreeStar', 'TreeCtc', 'Big', 'Wide', 'Chain', 'Ctc3', 'Req2', 'DecorAbs', 'Edit1', 'Edit1s', 'EditWalk'], naming_matters=True,
      name_classes=('casepair', 'natural'), name_stride={'quick': 8, 'thorough': 3}, assumptions=SEM_ASSUME,
      prepare=prepare_chain)(with_chain(ops_script(['atomic'])))
 C16_OPS = ['leaves', 'count_leaves', 'depth', 'abf', 'varpoints', 'ancestors']
@@ -321,7 +325,7 @@ def script_c16(case, naming, tier, seed):
 
 
 # ---------------------------------------------------------------------------
-@prop('C18', ['Ast', 'AstDeep', 'AstNNF'], name_classes=('casepair',), naming_matters=True, name_stride={'quick': 8, 'thorough': 2},
+@prop('C18', ['Ast', 'AstDeep', 'AstNNF', 'AstNeg'], name_classes=('casepair',), naming_matters=True, name_stride={'quick': 8, 'thorough': 2},
       assumptions=['equivalence is decided by complete truth tables over the atoms of the tree'])
 def script_c18(case, naming, tier, seed):
     from flamapy.core.models.ast import AST
@@ -346,7 +350,7 @@ METRIC_METHODS = [
     'extra_constraint_representativeness']
 
 
-@prop('C17', ['Tree', 'DecorAbs', 'TreeCtc', 'Mix', 'Ctc3', 'Wide', 'Chain', 'Edit1', 'EditWalk'], name_classes=('substr',), naming_matters=True, name_stride={'quick': 5, 'thorough': 2},
+@prop('C17', ['Tree', 'DecorAbs', 'TreeCtc', 'Mix', 'Ctc3', 'Wide', 'Chain', 'Deep-Ctc', 'C12-Deep', 'Edit1', 'Edit1s', 'EditWalk'], name_classes=('substr',), naming_matters=True, name_stride={'quick': 5, 'thorough': 2},
       assumptions=['constraint listings are compared with the per-constraint predicates of the model (judged by C18)'])
 def script_c17(case, naming, tier, seed):
     b, ev = load_event(case, naming)
@@ -429,8 +433,8 @@ def prepare_hist(cases, tier, seed):
         if 'base' in c:          # edit histories: every operation before and after in-place edits
             out.append((cid, dict(c, tags=['hist:edit'])))
             continue
-        if cid.rsplit('-', 1)[0] in ('TreeStar', 'DecorAbs'):    # every operation, twice on one object, on [a..*] / abstract models
-            if int(hashlib.md5(cid.encode()).hexdigest(), 16) % (3 if tier == 'quick' else 1) == 0:
+        if cid.rsplit('-', 1)[0] in ('TreeStar', 'DecorAbs', 'Deep-Ctc', 'C12-Deep'):    # every operation, twice on one object, on [a..*] / abstract / deep-constraint models
+            if int(hashlib.md5(cid.encode()).hexdigest(), 16) % (3 if tier == 'quick' else 1) == 0 or cid.startswith('C12-Deep'):
                 out.append((cid, dict(c, allops=True, tags=['hist:allops'] + case_tags(c))))
             continue
         if 'model' in c:
@@ -452,7 +456,7 @@ def _exec_any(obj, objid, op, model, naming, builder, seqno):
     return observe.exec_op(obj, objid, op, model, naming, fobj, seqno=seqno)
 
 
-@prop('C19', ['Tree', 'TreeCtc', 'DecorAttr', 'Hist', 'Edit1', 'EditWalk', 'TreeStar', 'DecorAbs'], naming_matters=False, prepare=prepare_hist,
+@prop('C19', ['Tree', 'TreeCtc', 'DecorAttr', 'Hist', 'Edit1', 'Edit1s', 'EditWalk', 'TreeStar', 'DecorAbs', 'Deep-Ctc', 'C12-Deep'], naming_matters=False, prepare=prepare_hist,
       assumptions=['"depends only on its argument" is checked as: over one history, equal (operation, argument, model) '
                    'give equal results whichever object is used and whatever it analysed before'])
 def script_c19(case, naming, tier, seed):
@@ -477,6 +481,8 @@ def script_c19(case, naming, tier, seed):
         events.append(observe.gen_attr(b.model, naming, 'a1', g['shape'], g['leaves'], g['seed']))
         if g['shape'] != 'unset':   # a second generation on the same model: every feature already has it
             events.append(observe.gen_attr(b.model, naming, 'a1', g['shape'], False, g['seed'] + 1))
+            # ... and a third without a domain: nothing is left to generate, the missing domain is still an error
+            events.append(observe.gen_attr(b.model, naming, 'a1', 'unset', False, g['seed'] + 2))
         return events, None
     op = case['op']
     built = {}
@@ -517,11 +523,14 @@ def script_c19(case, naming, tier, seed):
 
 
 # ---------------------------------------------------------------------------
-@prop('C20', ['Eq', 'Eq2', 'Eq3', 'Edit1', 'EditWalk'], name_classes=('plain', 'afmword', 'space', 'natural'), naming_matters=True,
+@prop('C20', ['Eq', 'Eq2', 'Eq3', 'Edit1', 'Edit1s', 'EditWalk'], name_classes=('plain', 'afmword', 'space', 'natural', 'casepair'), naming_matters=True,
       assumptions=['names never differ only in letter case (the one situation where the statement allows either answer)',
                    'features carry no attributes in this family; equality ignores them'])
 def script_c20(case, naming, tier, seed):
     from build import build_from_model
+    if naming.classes == ('casepair',) and (case['model']['ctcs'] or case.get('other', {}).get('ctcs') or case.get('base', {}).get('ctcs')
+                                            or any(h['a'] in ('EditImport', 'AddConstraint') for h in case['hist'])):
+        return [], None      # constraints that differ in letter case only: the statement allows either answer
     if edits_of(case):
         # edit history: compare (and hash) before the edits, edit in place, compare with the old twin and with
         # an independently built copy of the new state
@@ -550,7 +559,7 @@ import formats  # noqa: E402
 
 
 # name classes every format of a chain can carry (the chain is skipped under any other naming)
-CHAIN_CLASSES = {'uvl': {'plain', 'casepair', 'space', 'edgespace', 'nearsame', 'long', 'numeric', 'punct', 'uvlkw', 'opword', 'digit0', 'under0',
+CHAIN_CLASSES = {'uvl': {'plain', 'casepair', 'nonnfc', 'space', 'edgespace', 'nearsame', 'long', 'numeric', 'punct', 'uvlkw', 'opword', 'digit0', 'under0',
                          'nonascii', 'afmword'},
                  'afm': {'afmword'}}
 
@@ -634,11 +643,11 @@ prop('C08', fam_names('glencoe'), name_classes=ALL_NAME_CLASSES, naming_matters=
      assumptions=['constraints have distinct names (the format keys them by name)'])(roundtrip_script('glencoe'))
 prop('C07', fam_names('fide'), name_classes=ALL_NAME_CLASSES, naming_matters=True,
      assumptions=['names are XML-representable: no control characters'])(roundtrip_script('fide'))
-prop('C06', fam_names('afm'), name_classes=('afmword', 'afmcase'), base_class='afmword', naming_matters=True,
+prop('C06', fam_names('afm'), name_classes=('afmword', 'afmcase', 'afmkw'), base_class='afmword', naming_matters=True,
      name_stride={'quick': 3, 'thorough': 1},
      assumptions=['names match the AFM WORD token; attribute names the LOWERCASE token; enumerated domain elements, '
                   'default and null values are text tokens; range bounds are integers'])(roundtrip_script('afm'))
-UVL_NAME_CLASSES = ('casepair', 'space', 'edgespace', 'nearsame', 'long', 'numeric', 'punct', 'uvlkw', 'opword', 'digit0', 'under0', 'nonascii')
+UVL_NAME_CLASSES = ('casepair', 'nonnfc', 'space', 'edgespace', 'nearsame', 'long', 'numeric', 'punct', 'uvlkw', 'opword', 'digit0', 'under0', 'nonascii')
 prop('C01', fam_names('uvl'), name_classes=UVL_NAME_CLASSES, naming_matters=True, name_stride={'quick': 4, 'thorough': 3},
      assumptions=['names carry no double quote, dot or newline; strings no apostrophe; floats have a plain decimal repr'])(
     roundtrip_script('uvl'))
@@ -705,7 +714,7 @@ def prepare_c12(cases, tier, seed):
     return res
 
 
-@prop('C12', ['C12-Tree', 'C12-Ctc', 'C12-Ctc2', 'C12-Attr', 'C12-Edit1', 'C12-EditWalk', 'C12-Deep'], name_classes=('nonascii', 'space'), naming_matters=True,
+@prop('C12', ['C12-Tree', 'C12-Ctc', 'C12-Ctc2', 'C12-Attr', 'C12-Edit1', 'C12-Edit1s', 'C12-EditWalk', 'C12-Deep'], name_classes=('nonascii', 'space', 'nonnfc'), naming_matters=True,
       name_stride={'quick': 2, 'thorough': 1}, prepare=prepare_c12,
       assumptions=['the environment matrix (hash seeds x locale x PYTHONUTF8) is sampled, not exhaustive',
                    'purity is judged on the projected object graph'])
@@ -768,12 +777,12 @@ def export_script(langs):
     return script
 
 
-prop('C10', ['Tree', 'TreeCtc', 'Clafer-Ctc2', 'Deep-Ctc', 'Wide', 'Ctc3', 'Edit1', 'EditWalk'], naming_matters=True,
+prop('C10', ['Tree', 'TreeCtc', 'Clafer-Ctc2', 'Deep-Ctc', 'Wide', 'Ctc3', 'Req2', 'Edit1', 'Edit1s', 'EditWalk'], naming_matters=True,
      name_classes=('casepair',), name_stride={'quick': 4, 'thorough': 2},
      assumptions=['the .exp precedence is not < and < or < -> < <->, binary connectives left-associative',
                   'SXFM identifiers may be bare words or double-quoted strings'],
      trusted=['harness/parse_export.py (syntax of SXFM and .exp only)'])(export_script(['splot', 'pl']))
-prop('C11', ['Clafer-Tree', 'Clafer-Ctc', 'Clafer-Ctc2', 'Deep-Ctc', 'Clafer-Attr', 'Wide', 'Ctc3', 'Edit1', 'EditWalk'], name_classes=('space', 'punct', 'opword', 'dot', 'casepair'), naming_matters=True,
+prop('C11', ['Clafer-Tree', 'Clafer-Ctc', 'Clafer-Ctc2', 'Deep-Ctc', 'Clafer-Attr', 'Wide', 'Ctc3', 'Req2', 'Edit1', 'Edit1s', 'EditWalk'], name_classes=('space', 'punct', 'opword', 'dot', 'casepair'), naming_matters=True,
      attr_names_too=True,
      assumptions=['both ! and not are accepted as Clafer negation', 'identifiers may be bare words or double-quoted strings'],
      trusted=['harness/parse_export.py (syntax of the Clafer subset only)'])(export_script(['clafer']))
@@ -834,6 +843,22 @@ def _chainlen(t):
     return n
 
 
+def _nest_tags(t, tags):
+    """which operator stands directly under which (and-in-or, or-in-and, not-in-not, ...): the nestings a reader
+    or writer may flatten, reorder or un-parenthesise.  A binary inner node counts only when it joins two DIFFERENT
+    names: `(a & a) | a` means the same flattened or not, so it would cover the tag without testing anything."""
+    if t.get('op') in (None, 'NIL', 'VAR', 'INT', 'NUM', 'STR'):
+        return
+    for side in ('l', 'r'):
+        k = t.get(side, {})
+        if k.get('op') not in (None, 'NIL', 'VAR', 'INT', 'NUM', 'STR'):
+            kl, kr = k.get('l', {}), k.get('r', {})
+            unary = kr.get('op') in (None, 'NIL')
+            if unary or (kl.get('op') == 'VAR' and kr.get('op') == 'VAR' and kl.get('v') != kr.get('v')):
+                tags.add('%s-in-%s' % (k['op'].lower(), t['op'].lower()))
+            _nest_tags(k, tags)
+
+
 def _shape(t):
     if t.get('op') in (None, 'NIL'):
         return 'nil'
@@ -855,6 +880,7 @@ def ctc_tags(c):
             tags.add('nary')
         if _chainlen(k['ast']) >= 6:
             tags.add('chain%d' % _chainlen(k['ast']))
+        _nest_tags(k['ast'], tags)
     for f in c['model']['feats']:
         for a in f['attrs']:
             tags.add('attrval:' + a['val'].split(':')[0])
@@ -865,7 +891,7 @@ def ctc_tags(c):
     return tags
 
 
-UVL_WANTED = ['dupctc', 'sameshapectc', 'typed', 'fcard', 'star', 'abstract', 'cardinality', 'mutex', 'alternative', 'or', 'mandatory', 'optional',
+UVL_WANTED = ['and-in-or', 'or-in-and', 'implies-in-implies', 'or-in-implies', 'not-in-not', 'chain6', 'chain10', 'dupctc', 'sameshapectc', 'typed', 'fcard', 'star', 'abstract', 'cardinality', 'mutex', 'alternative', 'or', 'mandatory', 'optional',
               'multi-rel-parent', 'attrval:n', 'attrval:b', 'attrval:i', 'attrval:negint', 'attrval:longdec', 'attrval:d', 'attrval:s', 'attrval:l', 'attrval:m',
               'op:NOT', 'op:AND', 'op:OR', 'op:IMPLIES', 'op:EQUIVALENCE', 'op:EQUALS', 'op:LOWER', 'op:GREATER',
               'op:LOWER_EQUALS', 'op:GREATER_EQUALS', 'op:NOT_EQUALS', 'op:ADD', 'op:SUB', 'op:MUL', 'op:DIV', 'op:SUM', 'op:AVG']
@@ -892,8 +918,8 @@ def readref_script(fmt):
     return script
 
 
-prop('C04', ['uvl-Type', 'uvl-FCard', 'uvl-Attr', 'uvl-Star', 'uvl-Abs', 'Ref-uvl-Ctc', 'Ref-uvl-Arith', 'Ref-Mix', 'uvl-Dup', 'Surface-uvl'],
-     name_classes=('space', 'punct', 'uvlkw', 'digit0', 'long', 'casepair'), naming_matters=True, prepare=prepare_surface(UVL_WANTED, 12),
+prop('C04', ['uvl-Type', 'uvl-FCard', 'uvl-Attr', 'uvl-Star', 'uvl-Abs', 'Ref-uvl-Ctc', 'Ref-uvl-Arith', 'Ref-Mix', 'uvl-Dup', 'uvl-Ctc2', 'uvl-Chain', 'Surface-uvl'],
+     name_classes=('space', 'punct', 'uvlkw', 'digit0', 'long', 'casepair'), naming_matters=True, prepare=prepare_surface(UVL_WANTED, 18),
      assumptions=['the reference emitter (harness/emit_ref.py) is written from the UVL grammar and is trusted',
                   'own-line comments and blank lines between sections are not emitted: the installed uvlparser '
                   '(a dependency) rejects them', 'sub-expressions are always parenthesised, so the oracle never '
@@ -902,8 +928,8 @@ prop('C04', ['uvl-Type', 'uvl-FCard', 'uvl-Attr', 'uvl-Star', 'uvl-Abs', 'Ref-uv
 
 
 REF_FORMATS = {
-    'fide': dict(surface='Surface-fide', sources=['fide-Tree', 'fide-Ctc', 'fide-Abs', 'Ref-fide-Ctc3', 'Ref-fide-Chain', 'fide-Dup'], size=14,
-                 wanted=['chain6', 'chain7', 'chain10', 'chain12', 'dupctc', 'sameshapectc', 'mandatory', 'optional', 'or', 'alternative', 'abstract', 'multi-rel-parent', 'nary', 'op:NOT', 'op:AND',
+    'fide': dict(surface='Surface-fide', sources=['fide-Tree', 'fide-Ctc', 'fide-Abs', 'Ref-fide-Ctc3', 'Ref-fide-Chain', 'fide-Dup'], size=18,
+                 wanted=['and-in-or', 'or-in-and', 'and-in-implies', 'or-in-implies', 'chain6', 'chain7', 'chain10', 'chain12', 'dupctc', 'sameshapectc', 'mandatory', 'optional', 'or', 'alternative', 'abstract', 'multi-rel-parent', 'nary', 'op:NOT', 'op:AND',
                          'op:OR', 'op:IMPLIES', 'op:EQUIVALENCE', 'op:REQUIRES', 'op:EXCLUDES'],
                  ok=lambda m: True),
     'xml': dict(surface='Surface-xml', sources=['Ref-xml', 'Tree', 'Ref-xml-Wide'], size=10,
@@ -912,12 +938,12 @@ REF_FORMATS = {
                 ok=lambda m: all(c['ast']['op'] in ('REQUIRES', 'EXCLUDES') and c['ast']['l']['op'] == 'VAR'
                                  and c['ast']['r']['op'] == 'VAR' for c in m['ctcs'])
                 and len({c['name'] for c in m['ctcs']}) == len(m['ctcs'])),
-    'afm': dict(surface='Surface-afm', sources=['Ref-afm-Mix', 'afm-Ctc2', 'afm-Dup'], size=12,
-                wanted=['dupctc', 'sameshapectc', 'mandatory', 'optional', 'or', 'alternative', 'mutex', 'cardinality', 'multi-rel-parent', 'attr',
+    'afm': dict(surface='Surface-afm', sources=['Ref-afm-Mix', 'afm-Ctc2', 'afm-Dup'], size=14,
+                wanted=['and-in-or', 'or-in-and', 'dupctc', 'sameshapectc', 'mandatory', 'optional', 'or', 'alternative', 'mutex', 'cardinality', 'multi-rel-parent', 'attr',
                         'op:NOT', 'op:AND', 'op:OR', 'op:IMPLIES', 'op:EQUIVALENCE', 'op:REQUIRES', 'op:EXCLUDES'],
                 ok=lambda m: True),
-    'glencoe': dict(surface='Surface-glencoe', sources=['Ref-glencoe-Ctc', 'glencoe-Tree', 'Ref-glencoe-Chain', 'glencoe-Dup'], size=14,
-                    wanted=['chain6', 'chain7', 'chain10', 'chain12', 'dupctc', 'sameshapectc', 'mandatory', 'optional', 'or', 'alternative', 'mutex', 'cardinality', 'op:NOT', 'op:AND', 'op:OR',
+    'glencoe': dict(surface='Surface-glencoe', sources=['Ref-glencoe-Ctc', 'glencoe-Tree', 'Ref-glencoe-Chain', 'glencoe-Dup', 'glencoe-Ctc2'], size=18,
+                    wanted=['and-in-or', 'or-in-and', 'xor-in-and', 'and-in-xor', 'chain6', 'chain7', 'chain10', 'chain12', 'dupctc', 'sameshapectc', 'mandatory', 'optional', 'or', 'alternative', 'mutex', 'cardinality', 'op:NOT', 'op:AND', 'op:OR',
                             'op:XOR', 'op:IMPLIES', 'op:EQUIVALENCE', 'op:REQUIRES', 'op:EXCLUDES'],
                     ok=lambda m: len({c['name'] for c in m['ctcs']}) == len(m['ctcs'])),
 }
@@ -1005,7 +1031,7 @@ def prepare_c02(cases, tier, seed):
         out += [(cid, dict(c, rt=fmt)) for cid, c in mine]
     c04 = set(PROPS['C04']['families'])
     out += [(cid, dict(c, fmt='uvl')) for cid, c in
-            prepare_surface(UVL_WANTED, 12)([(cid, c) for cid, c in cases if cid.rsplit('-', 1)[0] in c04], tier, seed)]
+            prepare_surface(UVL_WANTED, 18)([(cid, c) for cid, c in cases if cid.rsplit('-', 1)[0] in c04], tier, seed)]
     out += prepare_c09(cases, tier, seed)
     return out
 
@@ -1043,6 +1069,6 @@ def script_c02(case, naming, tier, seed):
     return script_c09(case, naming, tier, seed)
 
 
-prop('C16', ['Tree', 'TreeStar', 'DecorAbs', 'Big', 'Wide', 'Chain', 'Edit1', 'EditWalk'], naming_matters=True,
+prop('C16', ['Tree', 'TreeStar', 'DecorAbs', 'Big', 'Wide', 'Chain', 'Edit1', 'Edit1s', 'EditWalk'], naming_matters=True,
      name_classes=('casepair', 'natural'), name_stride={'quick': 8, 'thorough': 3}, prepare=prepare_c16,
      assumptions=['corpus models above the TLC size bound are judged on the mutual agreement of scalar results only'])(script_c16)
